@@ -28,6 +28,7 @@ func init() {
 			kvSizeBoundaryAgreement(r)
 			kvImportPropagates(r)
 			c17Pack(r)
+			compactionShape(r)
 		},
 	})
 }
